@@ -77,4 +77,9 @@ authorization-code key, so a session cookie cannot be redeemed as a code. -/
 theorem C08_redeem_key_separation (c : CodeIn) (now : Int) (h : c.opens = none) : redeem now c = .error 401 := by
   simp [redeem, h]
 
+/-- Tie (T1): `Redeem` opens the code (`UnmarshalSession`) and checks both deadlines (`RefreshPeriodExpired`,
+`LifetimePeriodExpired`) on **every** request, before anything is marshalled — no cache, no fast path. -/
+theorem C08_skeleton_Redeem : Sso.Generated.skel_auth_Redeem =
+    ["call:NewLogEntry", "call:ParseForm", "if{", "call:Error", "call:Sprintf", "call:Error", "return", "}", "call:Get", "call:UnmarshalSession", "if{", "call:append", "call:Incr", "call:WithHTTPStatus", "call:Error", "call:Error", "call:Sprintf", "call:Error", "return", "}", "if{", "call:append", "call:Incr", "call:WithHTTPStatus", "call:Error", "call:Error", "call:Sprintf", "call:Error", "return", "}", "call:RefreshPeriodExpired", "call:LifetimePeriodExpired", "if{", "call:append", "call:Incr", "call:WithUser", "call:WithRefreshDeadline", "call:WithLifetimeDeadline", "call:Error", "call:ClearSession", "call:Sprintf", "call:Error", "return", "}", "call:Now", "call:Sub", "call:Seconds", "call:int64", "call:Marshal", "if{", "call:WriteHeader", "return", "}", "call:Header", "call:Set", "call:Header", "call:Set", "call:Write"] := by decide
+
 end Sso.AuthN
